@@ -119,7 +119,7 @@ def _run(ctx: Ctx, mod, replay):
 	# ---- R: correspondence -----------------------------------------------------------------------
 	if replay:
 		payload = json.loads(Path(replay).read_text())
-		cases = payload.get('cases') or [payload['case']]
+		cases = payload.get('cases') or ([payload['case']] if 'case' in payload else [])   # a tie-broken replay has no input: the build/audit above re-decides it
 		for case in cases:
 			lines, extra = _check_case(ctx, mod, case)
 			ctx.submit(case, lines, pyfails=extra)
@@ -211,7 +211,8 @@ def _run(ctx: Ctx, mod, replay):
 		'wall_s': round(ctx.elapsed(), 2),
 		'violations': len(violations) + (1 if (ctx.tie_broken and not violations) else 0),
 	}
-	core.write_evidence(pid, ev)
+	if not replay:
+		core.write_evidence(pid, ev)
 	log(f'{pid} {ctx.tier}: {ctx.evaluations} cases, {ctx.requests} driver requests, '
 	    f'{len(ctx.nontrivial_keys)} distinct non-trivial, {discharged}/{obligations} theorems, '
 	    f'{len(violations)} violations, {len(known_hits)} known findings, {ctx.elapsed():.1f}s')
